@@ -24,19 +24,27 @@ type readResult struct {
 	Ok  bool     `json:"ok"`
 	Err string   `json:"err"`
 	M   []string `json:"m"`
+	// the image as the disk state of SimpleDBDisk.tla, decoded before the recovery touched it
+	Disk *diskImage `json:"disk,omitempty"`
 }
 
 type dbreadIn struct {
 	Keys []string `json:"keys"`
 	N    int      `json:"n"`
 	Dirs []string `json:"dirs"`
+	// decode every image into the specification's disk state first
+	Decode bool `json:"decode"`
 }
 
 func init() { register("dbread", runDBRead) }
 
-func readOne(dir string, keys [][]byte, n int) (res readResult) {
+func readOne(dir string, keys [][]byte, n int, decode bool) (res readResult) {
 	res.Dir = dir
 	res.M = []string{}
+	if decode {
+		img := decodeDisk(dir, keys, n)
+		res.Disk = &img
+	}
 	defer func() {
 		if r := recover(); r != nil {
 			res.Ok = false
@@ -86,7 +94,7 @@ func runDBRead(args []string) error {
 	}
 	enc := json.NewEncoder(os.Stdout)
 	for _, d := range in.Dirs {
-		enc.Encode(readOne(d, keys, in.N))
+		enc.Encode(readOne(d, keys, in.N, in.Decode))
 	}
 	return nil
 }
